@@ -208,15 +208,21 @@ def run(cx):
         ib = cx.body(f"{NI}::is_closed")
         t = Origins(ib).of_local(0)
         ob.require(t[0] == "call" and name_matches(t[1], "mpsc::bounded::Sender::is_closed") and mentions_field(t, "connection_manager_handle"), "is_closed", f"is_closed returns {show(t)}", ib.path)
+        # NetworkRef::upgrade: Some(network) exactly when the weak reference is alive AND the network is not closed -
+        # decided on the function's case table, however it is written (combinator chain, `?` + early return, match)
         ub = cx.body("anemo::network::NetworkRef::upgrade")
-        t = Origins(ub).of_local(0)
-        ok = t[0] == "call" and name_matches(t[1], "Option::and_then") and term_has_call(t, "sync::Weak::upgrade")
-        cl = t[2][1] if ok else ("u",)
-        kb = prog.body(cl[2]) if cl[0] == "agg" else None
-        if kb is not None:
-            r = strip_identity(Origins(kb).of_local(0))
-            ok = r[0] == "call" and name_matches(r[1], "bool::then_some") and r[2][0][0] == "unop" and r[2][0][1] == "Not" and term_has_call(r[2][0], f"{NI}::is_closed") and is_param(r[2][1], "network")
-        ob.require(ok and kb is not None, "NetworkRef::upgrade", "NetworkRef::upgrade does not gate on !is_closed()", ub.path)
+
+        def atoms(t_):
+            if t_[0] == "call" and name_matches(t_[1], "sync::Weak::upgrade"):
+                return "weak"
+            if t_[0] == "call" and name_matches(t_[1], (f"{NI}::is_closed", "anemo::network::Network::is_closed")):
+                return ("closed", "bool")
+            if t_[0] == "call" and name_matches(t_[1], f"{CM}::ActivePeersRef::upgrade"):
+                return "peers"
+            return None
+        tab = function_cases(prog, ub, atoms)
+        ok = table_lookup(tab, weak="None") == {"None"} and table_lookup(tab, weak="Some", closed="true") == {"None"} and table_lookup(tab, weak="Some", closed="false") == {"Some"}
+        ob.require(ok, "NetworkRef::upgrade", f"NetworkRef::upgrade does not gate on !is_closed(): cases {sorted((sorted(k), sorted(v)) for k, v in tab.items())}", ub.path)
         for fn in ("peers", "disconnect", "peer"):
             b = cx.body(f"{NI}::{fn}")
             ups = call_sites_through(prog, b, lambda c: name_matches(c.fn, f"{CM}::ActivePeersRef::upgrade"), depth=2)      # inlined view: helpers allowed
@@ -224,8 +230,15 @@ def run(cx):
             bad = [c for c in b.calls() if name_matches(c.fn, ("Option::unwrap", "Option::expect", "Result::unwrap", "Result::expect")) and not b.is_cleanup(c.bb)]
             ob.require(not bad, f"{fn}/no-unwrap", f"NetworkInner::{fn} unwraps", b.path)
         sb = cx.body("anemo::network::Network::subscribe")
-        ob.require(len(call_sites_through(prog, sb, lambda c: name_matches(c.fn, f"{CM}::ActivePeersRef::upgrade"), depth=2)) == 1
-                   and len(call_sites_through(prog, sb, lambda c: name_matches(c.fn, ("Option::ok_or_else", "Option::ok_or")), depth=2)) == 1, "subscribe/weak-upgrade", "Network::subscribe does not map a dead peer map to Err", sb.path)
+        tab = function_cases(prog, sb, atoms)
+        if not tab or any(o_.startswith("?") for v_ in tab.values() for o_ in v_):
+            # written through a helper on NetworkInner that existed on the pinned tree? evaluate that one
+            for c_ in sb.calls():
+                if c_.callee in prog.bodies and c_.callee.startswith(f"{NI}::"):
+                    tab = function_cases(prog, prog.bodies[c_.callee], atoms)
+        ok = table_lookup(tab, peers="None") == {"Err"} and table_lookup(tab, peers="Some") == {"Ok"}
+        ob.require(ok and len(call_sites_through(prog, sb, lambda c: name_matches(c.fn, f"{CM}::ActivePeersRef::upgrade"), depth=2)) == 1,
+                   "subscribe/weak-upgrade", f"Network::subscribe does not map a dead peer map to Err: cases {sorted((sorted(k), sorted(v)) for k, v in tab.items())}", sb.path)
 
     with cx.ob("C08.4", "R-SHAPE", "ownership: user service only in task-owned structs; NetworkInner has no service clone and only a weak peer map; single broadcast Sender") as ob:
         svc_owners = []
